@@ -740,6 +740,29 @@ func (e *Env) call(x *ECall) (TV, error) {
 			args = append(args, v.T.S)
 		}
 		return TV{T(SInt, "(i%s %s)", x.Fn, strings.Join(args, " ")), tInt}, nil
+	case "deref":
+		// deref(p): the value a pointer to a scalar (non-struct, non-array)
+		// element points to, in the current state
+		if len(x.Args) != 1 {
+			return TV{}, fmt.Errorf("deref takes one argument")
+		}
+		v, err := e.eval(x.Args[0])
+		if err != nil {
+			return TV{}, err
+		}
+		if v.Typ == nil {
+			return TV{}, fmt.Errorf("deref of untyped value %s", exprString(x.Args[0]))
+		}
+		pt, ok := v.Typ.Underlying().(*types.Pointer)
+		if !ok {
+			return TV{}, fmt.Errorf("deref of non-pointer %s", v.Typ)
+		}
+		switch pt.Elem().Underlying().(type) {
+		case *types.Struct, *types.Array:
+			return TV{}, fmt.Errorf("deref of pointer to %s: use field access / indexing", pt.Elem())
+		}
+		h := vc.heap(e.st, ptrHeapName(pt.Elem()), arraySort(SInt, vc.sortOf(pt.Elem())))
+		return TV{sel(h, v.T), pt.Elem()}, nil
 	case "base":
 		v, err := e.eval(x.Args[0])
 		if err != nil {
